@@ -239,6 +239,7 @@ fn sample_t(rng: &mut Rng, k: usize) -> f64 {
     match k {
         0 if rng.f64() < 0.3 => 150.0,
         1 if rng.f64() < 0.3 => 1500.0,
+        2 if rng.f64() < 0.3 => 298.15, // T0 of both models: h = s = 0, ln(T/T0) = 0
         _ => rng.range(150.0, 1500.0),
     }
 }
@@ -391,18 +392,21 @@ fn record_cases(recs: &[(String, Rec)], nt: usize, rng: &mut Rng, file: &mut Str
 // ---------------------------------------------------------------------------------------------
 // part B: mixtures on the ideal-gas trait (reduced units) + State-level c_p of the mixture
 
-fn mixture_case(id: &str, names: &[String], recs: &[Rec], rng: &mut Rng, file: &mut String) -> Value {
+fn mixture_case(id: &str, names: &[String], recs: &[Rec], rng: &mut Rng, file: &mut String, corner: bool) -> Value {
     let nc = recs.len();
     let ig = build(recs);
     let t = rng.range(150.0, 1500.0);
-    let v = rng.log_range(1.0e3, 1.0e8);
-    let n: Vec<f64> = (0..nc).map(|_| rng.log_range(0.3, 30.0)).collect();
+    // total number density from 1e-12 of a typical maximum density (1e-2 / A^3) up to liquid-like values
+    let ntot = rng.log_range(0.3, 30.0);
+    let (rho, x) = if corner { (1.0e-14, corner_x(rng, nc)) } else { (rng.log_range(1.0e-14, 3.0e-2), sample_x_trace(rng, nc)) };
+    let v = ntot / rho;
+    let n: Vec<f64> = x.iter().map(|xi| xi * ntot).collect();
+    let ident = trait_identities(&ig, t, v, &n);
     let jet = with_ig(&ig, |m| ig_jet(m, t, v, &n), |m| ig_jet(m, t, v, &n));
     let (cp_state, cp_direct) = cp_values(&ig, t, v, &n);
     let cs = format!("[{}]", recs.iter().zip(&n).map(|(r, x)| r.icomp(*x)).collect::<Vec<_>>().join("; "));
     let (ts, vs) = (dy(t), dy(v));
     writeln!(file, "Definition cs_{id} : list icomp := {cs}.").unwrap();
-    let ntot: f64 = n.iter().sum();
     // scales: sum of the absolute values of the terms of each quantity
     let lam = with_ig(&ig, |m| lam_of(m, t), |m| lam_of(m, t));
     let s_a: f64 = (0..nc).map(|i| n[i] * t * (lam[i].abs() + (n[i] / v).ln().abs() + 1.0)).sum();
@@ -446,7 +450,7 @@ fn mixture_case(id: &str, names: &[String], recs: &[Rec], rng: &mut Rng, file: &
     g(file, "cpM", format!("(cp_mix {ts} {vs} cs_{id} * Q_RGAS)"), cp_state, tol_c * 10.0, &format!("c10_helm cs_{id}."));
     json!({"id": id, "records": names, "models": recs.iter().map(|r| r.json()).collect::<Vec<_>>(), "T": t, "V": v, "N": n,
         "A": jet.a, "A_V": jet.a_v, "A_T": jet.a_t, "A_TT": jet.a_tt, "A_N": jet.a_n,
-        "cp_state": cp_state, "cp_direct": cp_direct, "tol_cp": tol_c, "goals": goals})
+        "cp_state": cp_state, "cp_direct": cp_direct, "tol_cp": tol_c, "goals": goals, "corner": corner, "identities": ident})
 }
 
 /// rho_i = 0 guard: a mixture with an absent component must give the Helmholtz energy (and T, V derivatives) of the subset
@@ -456,6 +460,7 @@ fn guard_case(names: &[String], recs: &[Rec], rng: &mut Rng) -> Value {
     let t = rng.range(150.0, 1500.0);
     let v = rng.log_range(1.0e3, 1.0e8);
     let zero = rng.below(nc);
+    let v = if rng.f64() < 0.5 { v } else { rng.log_range(1.0e8, 1.0e15) };
     let n: Vec<f64> = (0..nc).map(|i| if i == zero { 0.0 } else { rng.log_range(0.3, 30.0) }).collect();
     let keep: Vec<usize> = (0..nc).filter(|i| *i != zero).collect();
     let nk: Vec<f64> = keep.iter().map(|i| n[*i]).collect();
@@ -689,7 +694,23 @@ fn state_case<I: IdealGas + 'static>(
             mixing.push(json!({"component": i, "mu_mix": m1, "mu_pure": m0, "x": n[i] / ntot, "RTlnx": 8.31446261815324 * t_si * (n[i] / ntot).ln(), "tol": tol}));
         }
     }
-    let json = json!({"id": id, "config": cfg.name, "ideal_gas": ig_desc, "T": t, "V": v, "N": n, "eta_over_eta_max": eta_frac,
+    // chemical_potential_contributions(component, selector): lists per contribution; Total = IdealGas entry ++ Residual entries
+    let mut mu_contrib = Vec::new();
+    for i in 0..nc {
+        let sums: Vec<(usize, f64, f64)> = cs
+            .iter()
+            .map(|(_, c)| {
+                let l = st.chemical_potential_contributions(i, *c);
+                let vals: Vec<f64> = l.iter().map(|(_, m)| m.to_reduced()).collect();
+                (vals.len(), vals.iter().sum::<f64>(), vals.iter().map(|z| z.abs()).sum::<f64>())
+            })
+            .collect();
+        let mu = |c: Contributions| st.chemical_potential(c).to_reduced()[i];
+        mu_contrib.push(json!({"component": i, "len": [sums[0].0, sums[1].0, sums[2].0], "sum": [sums[0].1, sums[1].1, sums[2].1],
+            "scale": sums[2].2 + sums[0].2 + sums[1].2,
+            "getter": [mu(Contributions::IdealGas), mu(Contributions::Residual), mu(Contributions::Total)]}));
+    }
+    let json = json!({"id": id, "config": cfg.name, "ideal_gas": ig_desc, "mu_contributions": mu_contrib, "T": t, "V": v, "N": n, "eta_over_eta_max": eta_frac,
         "getters": rows, "all_finite": ok, "p_ig_SI": p_si, "rho_SI": rho_si, "T_SI": t_si, "minus_dAig_dV_reduced": -ij.a_v,
         "mixing": mixing, "goals": goals});
     Some(StateCase { json, coq })
@@ -745,6 +766,61 @@ fn sample_x(rng: &mut Rng, nc: usize) -> Vec<f64> {
     let s: f64 = x.iter().sum();
     x.iter_mut().for_each(|xi| *xi /= s);
     x
+}
+
+/// composition in the open simplex; half of the time one component is a trace (x log-uniform in [1e-6, 1e-1])
+fn sample_x_trace(rng: &mut Rng, nc: usize) -> Vec<f64> {
+    let mut x = sample_x(rng, nc);
+    if nc > 1 && rng.f64() < 0.5 {
+        let j = rng.below(nc);
+        let xt = rng.log_range(1e-6, 1e-1);
+        with_trace(&mut x, j, xt);
+    }
+    x
+}
+
+fn with_trace(x: &mut [f64], j: usize, xt: f64) {
+    let rest: f64 = x.iter().enumerate().filter(|(i, _)| *i != j).map(|(_, v)| *v).sum();
+    for (i, xi) in x.iter_mut().enumerate() {
+        *xi = if i == j { xt } else { *xi / rest * (1.0 - xt) };
+    }
+}
+
+/// the corner of the property's quantifier: total density 1e-12 rho_max and a trace component x_j = 1e-6
+fn corner_x(rng: &mut Rng, nc: usize) -> Vec<f64> {
+    let mut x = sample_x(rng, nc);
+    if nc > 1 {
+        let j = rng.below(nc);
+        with_trace(&mut x, j, 1e-6);
+    }
+    x
+}
+
+/// ideal-gas identities on the IdealGas trait alone (reduced units) at one state: ideal mixing for every component
+/// (pure reference = the subset model at the same T, V, total N) and the Euler relation A = -pV + sum mu_i N_i
+fn trait_identities(ig: &Ig, t: f64, v: f64, n: &[f64]) -> Value {
+    let nc = n.len();
+    let ntot: f64 = n.iter().sum();
+    let jet = with_ig(ig, |m| ig_jet(m, t, v, n), |m| ig_jet(m, t, v, n));
+    let lam = with_ig(ig, |m| lam_of(m, t), |m| lam_of(m, t));
+    let mut mixing = Vec::new();
+    for i in 0..nc {
+        let pure = with_ig(
+            ig,
+            |m| ig_jet(&Components::subset(m, &[i]), t, v, &[ntot]),
+            |m| ig_jet(&Components::subset(m, &[i]), t, v, &[ntot]),
+        );
+        let scale = t * (lam[i].abs() + (n[i] / v).ln().abs() + (ntot / v).ln().abs() + 1.0);
+        mixing.push(json!({"component": i, "x": n[i] / ntot, "rho_i": n[i] / v, "mu_mix": jet.a_n[i], "mu_pure": pure.a_n[0],
+            "T_ln_x": t * (n[i] / ntot).ln(), "tol": 1e-11 * scale}));
+    }
+    let mun: f64 = (0..nc).map(|i| jet.a_n[i] * n[i]).sum();
+    let finite = [jet.a, jet.a_t, jet.a_v, jet.a_tt].iter().chain(jet.a_n.iter()).all(|z| z.is_finite());
+    let euler_scale: f64 = jet.a.abs() + (jet.a_v * v).abs() + (0..nc).map(|i| (jet.a_n[i] * n[i]).abs()).sum::<f64>();
+    json!({"T": t, "V": v, "N": n, "rho": ntot / v, "mixing": mixing,
+        "euler_residual": jet.a - (jet.a_v * v + mun), "euler_tol": 1e-11 * euler_scale,
+        "p_residual": -jet.a_v - ntot * t / v, "p_tol": 1e-12 * ntot * t / v,
+        "finite": finite})
 }
 
 fn main() {
@@ -814,11 +890,13 @@ fn main() {
     let dpool: Vec<(String, Rec)> = dp_all.iter().cloned().chain(rnd.iter().cloned()).collect();
     for k in 0..nmix {
         let use_j = k % 2 == 0;
-        let nc = 1 + rng.below(3);
+        // the first two cases (one Joback, one DIPPR) sit in the corner of the quantifier: rho = 1e-14 / A^3, x_j = 1e-6
+        let corner = k < 2;
+        let nc = if corner { 2 + rng.below(2) } else { 1 + rng.below(3) };
         let (names, recs) = pick_ig(&mut rng, nc, &jb_all, &dpool, use_j);
         let id = format!("m{k}");
         let mut body = String::new();
-        let mut c = mixture_case(&id, &names, &recs, &mut rng, &mut body);
+        let mut c = mixture_case(&id, &names, &recs, &mut rng, &mut body, corner);
         let fname = format!("mix_{id}.v");
         write(&fname, &body);
         c["file"] = json!(fname);
@@ -827,6 +905,23 @@ fn main() {
         let nc2 = 2 + rng.below(2);
         let (names, recs) = pick_ig(&mut rng, nc2, &jb_all, &dpool, use_j);
         guard_json.push(guard_case(&names, &recs, &mut rng));
+    }
+
+    // oracle sweep on the trait alone (cheap): thin gases, trace components, every density decade of the quantifier
+    let nsweep = if full { 4000 } else { 400 };
+    let mut sweep_json = Vec::new();
+    for k in 0..nsweep {
+        let nc = 2 + rng.below(2);
+        let (names, recs) = pick_ig(&mut rng, nc, &jb_all, &dpool, k % 2 == 0);
+        let ig = build(&recs);
+        let t = sample_t(&mut rng, k % 3);
+        let ntot = rng.log_range(0.3, 30.0);
+        let rho = rng.log_range(1.0e-14, 3.0e-2);
+        let x = if k % 8 == 0 { corner_x(&mut rng, nc) } else { sample_x_trace(&mut rng, nc) };
+        let n: Vec<f64> = x.iter().map(|xi| xi * ntot).collect();
+        let mut c = trait_identities(&ig, t, ntot / rho, &n);
+        c["records"] = json!(names);
+        sweep_json.push(c);
     }
 
     // ---------------- part C / D
@@ -852,11 +947,22 @@ fn main() {
             let (names, recs) = pick_ig(&mut rng, cfg.ncomp, &jb_all, &dpool, use_j);
             let desc = json!({"records": names, "models": recs.iter().map(|r| r.json()).collect::<Vec<_>>()});
             let t = (cfg.t_scale * rng.range(0.5, 2.5)).clamp(150.0, 1500.0);
-            let x = sample_x(&mut rng, cfg.ncomp);
+            // k = 0: dense, regular composition; k = 1: the corner of the quantifier (1e-12 rho_max, trace x_j = 1e-6);
+            // k >= 2 (thorough): random, log-uniform density down to 1e-12 rho_max, trace compositions half of the time
+            let x = match k {
+                0 => sample_x(&mut rng, cfg.ncomp),
+                1 => corner_x(&mut rng, cfg.ncomp),
+                _ => sample_x_trace(&mut rng, cfg.ncomp),
+            };
             let ntot = rng.log_range(0.5, 50.0);
             let n: Vec<f64> = x.iter().map(|xi| xi * ntot).collect();
             let rho_max = cfg.model.compute_max_density(&Array1::from_vec(n.clone()));
-            let frac = if k % 2 == 0 { rng.range(0.02, 0.85) } else { rng.log_range(1e-12, 0.5) };
+            let frac = match k {
+                0 => rng.range(0.02, 0.85),
+                1 => 1e-12,
+                _ if k % 2 == 0 => rng.range(0.02, 0.85),
+                _ => rng.log_range(1e-12, 0.5),
+            };
             let v = ntot / (frac * rho_max);
             let id = format!("s{ci}_{k}");
             let sc = match build(&recs) {
@@ -890,6 +996,7 @@ fn main() {
         "records": record_json,
         "mixtures": mix_json,
         "guard": guard_json,
+        "trait_sweep": sweep_json,
         "states": state_json,
         "states_skipped_nonfinite_or_invalid": skipped,
         "zero_density": zero_json,
